@@ -622,6 +622,39 @@ def pkH : Handler := fun args impl =>
     | _, _ => unmodelled
   | _ => unmodelled
 
+/-- `pkrw p.DHCP <hex> <len> <message length> <expectations>` (C09): a BOOTP/DHCP message written by an independent
+    encoder, possibly followed by BOOTP padding, is decoded with `Write`; the fixed fields must hold what was written,
+    `Len()` must be the message's length and `Read` must reproduce the message -/
+def pkrwH : Handler := fun args impl =>
+  match args with
+  | [kn, hx, ln, mlen, exp] =>
+    match ofHex hx, ln.toNat? with
+    | some bs0, some n =>
+      let bs := bs0.take n
+      let m : String :=
+        if kn = "p.DHCP" then
+          match PDHCP.write PDHCP.zero bs with
+          | .ok (v, _) =>
+            (match PDHCP.len v, PDHCP.readBuf v with
+             | .ok l, .ok b => s!"{v.toText} {l.toNat} {hexOrDash (b.take l.toNat)}"
+             | _, _ => "err2")
+          | r => showR (fun _ => "") r
+        else "unmodelled"
+      let input := toHex (bs.take (mlen.toNat?.getD 0))
+      let fails : List String :=
+        match impl.splitOn " " with
+        | [d, l, h] =>
+          (match V.ofText d with
+           | none => [s!"{kn}: unreadable result {impl.take 60}"]
+           | some dv =>
+             ((exp.splitOn ";").drop 1 |>.filter (· ≠ "") |>.filterMap (checkExpect dv)) ++
+             (if l = mlen then [] else [s!"{kn}: reported size {l}, the message has {mlen} bytes"]) ++
+             (if h = input then [] else [s!"{kn}: re-encoding {h.take 100} differs from the message {input.take 100}"]))
+        | _ => [s!"well-formed {kn} message of {mlen} bytes: decoder returned {impl.take 60}"]
+      { model := m, more := (fails.take 3).map (fun f => ("C09", f)) }
+    | _, _ => unmodelled
+  | _ => unmodelled
+
 /-- `dec` with the totality oracle for the packet-header decoders (C08) -/
 def decH : Handler := fun args impl =>
   let v := dec args impl
@@ -650,7 +683,7 @@ def handlers : List (String × Handler) :=
       match a with
       | kn :: _ :: ln :: _ => if kn.startsWith "p." ∧ (i = "panic" ∨ i = "spin") then { v with more := [("C08", s!"{kn} decoder on {ln} bytes: {i}")] } else v
       | _ => v),
-   ("fn", fn), ("prog", prog), ("api", api), ("apix", apix), ("parse", parseH), ("sw", swH), ("pk", pkH), ("embed", embedH), ("embedw", embedH),
+   ("fn", fn), ("prog", prog), ("api", api), ("apix", apix), ("parse", parseH), ("sw", swH), ("pk", pkH), ("pkrw", pkrwH), ("embed", embedH), ("embedw", embedH),
    ("rep", rep), ("rtrip", rtWith false), ("rtparse", rtWith true), ("rtw", rtw), ("scribble", scribble),
    -- literal values: the repeated-call oracle ("same answer every time") applies to any value whatsoever; the
    -- size-vs-bytes part belongs to C06 and is judged on API-built values only
